@@ -13,8 +13,34 @@ def load():
 
 
 def match(known, prop, rule, signature):
-    """Only OPEN entries suppress; fixed entries suppress nothing."""
+    """Only OPEN entries suppress; fixed entries suppress nothing.  An entry with property "*" is a
+    world_unbuildable finding that any check can run into (no library exists for that input)."""
     for k in known:
-        if k.get("status") == "open" and k["property"] == prop and k["rule"] == rule and k["signature"] == signature:
+        if k.get("status") == "open" and k["property"] in (prop, "*") and k["rule"] == rule and k["signature"] == signature:
             return k
+    return None
+
+
+def generic_signature(spec, rule, msg):
+    """Shapes of recorded world_unbuildable findings that are independent of the property being checked."""
+    if rule != "world_unbuildable" or spec is None:
+        return None
+    if "NameError" in str(msg):
+        home = {}
+        for fs in spec["files"]:
+            for m in fs.get("messages", []) + fs.get("enums", []):
+                home["." + fs["package"] + "." + m["name"]] = fs["name"]
+        for fs in spec["files"]:
+            msgs = {"." + fs["package"] + "." + m["name"]: m for m in fs.get("messages", [])}
+            for s in fs.get("services", ()):
+                for m in s["methods"]:
+                    req = msgs.get(m["input"])
+                    if not req:
+                        continue
+                    flat = {x.strip().split(".")[0] for sg in m.get("signatures", []) for x in sg.split(",") if x.strip()}
+                    for f in req["fields"]:
+                        if f["name"] in flat and f.get("map") and f["map"]["value"]["type"] in ("message", "enum"):
+                            h = home.get(f["map"]["value"]["type_name"])
+                            if h is not None and h != fs["name"]:
+                                return "flattened map parameter whose value type lives in another proto file"
     return None
